@@ -1,6 +1,6 @@
 """Generation, execution and comparison of `kick` cases (KickMap::updateSM + apply) shared by
 C01, C02, C08, C17.  Every random choice comes from ctx.rng."""
-import math, struct
+import math, struct, random
 from fractions import Fraction
 from vp_common import *
 
@@ -187,6 +187,17 @@ def gen_cases(ctx, count, streams=("exact", "whole", "tol", "boundary"), nbs=(1,
         ctx.count("kick:it%d" % it)
         ctx.count("kick:nb%d" % nb)
     return cases
+
+
+def with_rng(ctx, salt, f, *a, **k):
+    """runs a generator on its own PRNG (derived from the seed) so that a stream added later does not shift the draws of
+    the streams that existed before"""
+    saved = ctx.rng
+    ctx.rng = random.Random(ctx.seed * 1000003 + salt)
+    try:
+        return f(*a, **k)
+    finally:
+        ctx.rng = saved
 
 
 def edge_offsets(rng, n, it, cnt):
